@@ -640,7 +640,7 @@ def correspond(ctx):
     from rdkit import Chem, RDLogger
     RDLogger.DisableLog('rdApp.*')
     ctx.cov['programs'] = 5   # to_rdkit_molecule, from_rdkit_molecule, stereogenic_tetrahedrons, _stereo_cis_trans_centers, stereogenic_cis_trans
-    s_env, s_to, s_from, s_rt = (Stream(ctx, n) for n in ('env', 'to', 'from', 'model-round-trip'))
+    s_env, s_to, s_from, s_rt, s_edge = (Stream(ctx, n) for n in ('env', 'to', 'from', 'model-round-trip', 'edge'))
     rng = ctx.rng
     for tag, smi in source_smiles(ctx):
         mol = parse(smi)
@@ -649,12 +649,15 @@ def correspond(ctx):
             continue
         # ---- chython side ----
         for vtag, m in variants(ctx, tag, mol):
-            if any(a._implicit_hydrogens is None for a in m._atoms.values()):
-                ctx.dist('domain:valence-invalid')
-                continue
             nt = nontrivial(m)
             ml = wire.mol_to_ints(m)
             s_env.add(line('env', ml), outcome(lambda: env_ints(m)), vtag, nt)
+            if any(a._implicit_hydrogens is None for a in m._atoms.values()):
+                # hydrogens unknown (aromatic SMILES before kekule(), valence errors): outside the property's domain, but the
+                # error branch of the model (`SetNumExplicitHs(None)`) is compared
+                ctx.dist('domain:hydrogens-unknown')
+                s_edge.add(line('to', 1, cmol_ints(m)), outcome(lambda: real_to(m, True)[1]), vtag, nt)
+                continue
             keep = rng.random() < 0.7
             try:
                 rd, pre = real_to(m, keep)
@@ -711,11 +714,62 @@ def correspond(ctx):
                 ctx.count(('X', smi))
                 ctx.dist('X:judged')
                 report(ctx, 'X', tag, smi, x)
-    for s in (s_env, s_to, s_from, s_rt):
+    edge_from(ctx, s_edge)
+    for s in (s_env, s_to, s_from, s_rt, s_edge):
         s.run()
     if _state.get('c01gap'):
         ctx.notes.append(f"{len(_state['c01gap'])} canonical-string differences with identical attributes/bonds/configuration under "
                          f"the position map (numbering dependence of the writer, C01 gap; not counted): e.g. {_state['c01gap'][0]}")
+
+
+EDGE_RD = ['*C', '[99CH4]', '[Fe+5]', '[Fe-5]', 'C$C', 'C~C', '[NH3]->[Cu]', '[Cu]<-[NH3]', '[CH2]', '[CH]', '[C]', '[O]', 'C[S@](=O)CC',
+           'C[P@](=O)(O)CC', 'C[N@+](CC)(CCC)CCCC', '[2H][C@H](F)Cl', '[H][C@H](F)Cl', 'C[Si@H](F)Cl', 'F[P@](Cl)(Br)(I)(C)C',
+           'C[C@H](F)[O-]', 'C[C@@H]([CH2])F', 'C/C=C/C', 'C/C=C=C=C/C', 'CC=[C@]=CC', 'F/C=C/F', 'C/C=[N+](/C)[O-]', 'C/C=[O+]/C',
+           'C/C=P/C', 'C/C=C/[Fe]', 'C[C@H](Cl)[Fe]', '[Fe]C(=C/C)/C', 'C1=C/CCCCCC/1', 'C1CC/C=C/CC1', '[H]/C(C)=C/C',
+           '[2H]/C(C)=C/C', 'F[C@]1(Cl)CC1', 'C[C@@](F)(Cl)(Br)I', '[13C@H](C)(F)Cl', 'C[C@H](F)C#[Fe]', 'C:C', 'c1ccccc1', 'C[N]', '[NH]',
+           'F/C=C/C=C/F', 'FC(Cl)=C(Br)I', 'C(/F)=C/[C@H](C)O', '[Li+].[Cl-]', '[Na]Cl', 'C[Zn]C', 'O=[Os](=O)(=O)=O']
+
+
+def edge_from(ctx, stream):
+    """RDKit molecules at and beyond the edge of the domain: every error branch of the model and every label that must be
+    dropped (non-carbon centres, cumulenes, unsupported stereo kinds) is compared with the real code."""
+    from rdkit import Chem
+    from rdkit.Chem import BondStereo
+    p = Chem.SmilesParserParams()
+    p.removeHs = False
+    p.sanitize = False
+    mols = []
+    for smi in EDGE_RD:
+        for san in (True, False):
+            rd = Chem.MolFromSmiles(smi, p)
+            if rd is None:
+                continue
+            if san:
+                try:
+                    Chem.SanitizeMol(rd)
+                    Chem.AssignStereochemistry(rd, cleanIt=True, force=True)
+                except Exception:
+                    continue
+            else:
+                rd.UpdatePropertyCache(strict=False)
+            mols.append((f'edge:{smi}:{"sanitized" if san else "raw"}', rd))
+    # stereo kinds the bridge does not read (STEREOCIS/STEREOTRANS/STEREOANY with stereo atoms set)
+    for kind in ('STEREOCIS', 'STEREOTRANS', 'STEREOANY'):
+        rd = Chem.RWMol(Chem.MolFromSmiles('FC=CCl'))
+        b = rd.GetBondBetweenAtoms(1, 2)
+        b.SetStereoAtoms(0, 3)
+        b.SetStereo(getattr(BondStereo, kind))
+        mols.append((f'edge:FC=CCl:{kind}', rd.GetMol()))
+    for tag, rd in mols:
+        def real():
+            back, pre, _ = real_from(rd)
+            return pre
+        try:
+            req = line('from', rmol_ints(rd), nbrs_ints(rd))
+        except Exception as e:
+            ctx.dist('edge:not-encodable:' + type(e).__name__)
+            continue
+        stream.add(req, outcome(real), tag)
 
 
 def pre_of(m, keep):
